@@ -1035,3 +1035,18 @@ def gen_txt_read(rng, N):
             continue
         out.append({"op": "txt_read", "kind": kind, "text": text, "_kind": kind, "_style": style, "_wkind": wkind, "_muts": muts, "_nl": nl, "n": n})
     return out
+
+
+def gen_json_text(rng, N, nmax=5):
+    """objects of all four kinds whose JSON text is compared character by character with the
+    model's, and whose prefixes / damaged variants go through the scanner and through json.loads"""
+    out = []
+    for s in gen_rt(rng, N, nmax=nmax):
+        s = dict(s)
+        for k in ("warmup", "warm_single", "faults", "via_apply", "txt"):
+            s.pop(k, None)
+        if any(("\ud800" <= ch <= "\udfff") for nm in s["names"] for ch in nm):
+            continue
+        s["op"] = "json_text"
+        out.append(s)
+    return out
